@@ -53,7 +53,11 @@ def run(ctx):
             ctx.violations.append({"engine": "Trace_Codec", "why": ["recorded event violates C10"], "rejected": lenient["rejected"],
                                    "record_cmd": "h-crdt record-codec --seed %d --n %d" % (ctx.seed, n)})
     ctx.log("random trace of %d events: %s" % (n, "accepted" if tv["accepted"] else "rejected (strict)"))
+    proof = None
+    if ctx.tier == "thorough":
+        proof = _tlaps(ctx)
     cov = {
+        "tlaps_pack_order_lemma": proof,
         "states": g1["distinct"] + g2["distinct"], "transitions": g1["generated"] + g2["generated"],
         "traces_validated_against_impl": r1["evaluations"] + r2["evaluations"] + n,
         "samples": (r1["samples"][:3] + r2["samples"][:1]), "exhaustive": True,
@@ -63,6 +67,31 @@ def run(ctx):
         "checker_cmd": g1["cmd"],
     }
     return vlib.finish(ctx, "model_checking", cov, ASSUMPTIONS)
+
+
+def _tlaps(ctx):
+    """Thorough tier: the order-preservation / injectivity lemma for the real field widths (spec/proofs/PackOrder.tla)."""
+    import os
+    import re
+    import shutil
+    import subprocess
+    src = os.path.join(vlib.SPEC, "proofs", "PackOrder.tla")
+    d = ctx.path("tlaps")
+    os.makedirs(d, exist_ok=True)
+    shutil.copy(src, d)
+    try:
+        p = subprocess.run(["tlapm", "--cleanfp", "--threads", "4", "PackOrder.tla"], cwd=d, stdout=subprocess.PIPE,
+                           stderr=subprocess.STDOUT, text=True, timeout=900)
+    except subprocess.TimeoutExpired:
+        ctx.log("TLAPS timed out; the lemma is optional support, the claim stays at model-checking level")
+        return {"status": "timeout"}
+    m = re.search(r"All (\d+) obligations proved", p.stdout)
+    f = re.search(r"(\d+)/(\d+) obligations failed", p.stdout)
+    if m:
+        ctx.log("TLAPS: all %s obligations of PackOrder.tla proved" % m.group(1))
+        return {"status": "proved", "obligations": int(m.group(1)), "discharged": int(m.group(1)), "checker_cmd": "tlapm --cleanfp PackOrder.tla"}
+    ctx.log("TLAPS did not prove PackOrder.tla (%s); optional support only" % (f.group(0) if f else "no result"))
+    return {"status": "unproved", "detail": f.group(0) if f else p.stdout[-300:]}
 
 
 def replay(ctx, path):
